@@ -18,6 +18,26 @@
 (* With this representation "the summed weight per value" is the pointwise *)
 (* sum of vectors.                                                         *)
 (*                                                                         *)
+(* WEIGHTED STATISTICS.  obiuniq -m accepts two kinds of descriptor on the   *)
+(* attribute k:                                                            *)
+(*   "k"   (Plain)    : the weight of a record is its count, the map is    *)
+(*                      stored under merged_k                              *)
+(*   "k:w" (Weighted) : the weight of a record is its integer attribute w  *)
+(*                      (0 when the record has no w), the map is stored    *)
+(*                      under merged_k:w                                   *)
+(* A record therefore also carries                                         *)
+(*   w  : its attribute w (an integer >= 0), NoW when absent               *)
+(*   wt = "map" : it already has a merged_k:w map (a previous pass), wm    *)
+(*   mt = "both": it has the attribute k = mv AND a merged_k map mm (a     *)
+(*                singleton class of a previous pass keeps its attributes) *)
+(* Every requested descriptor d gives one map per output record: the       *)
+(* pointwise sum of Contribution(r, d) over the records r of the class,    *)
+(* where a record that already has the map of d brings that map and any    *)
+(* other record brings its weight under its value of k (NA when absent).   *)
+(* The two descriptors are independent of each other.  In a weighted map a *)
+(* value of total weight 0 and an absent value are the same thing (the     *)
+(* property speaks of the summed weight per value).                        *)
+(*                                                                         *)
 (* The data set is a finite multiset of records, written as a SEQUENCE rs  *)
 (* (a sequence up to permutation); every definition below is symmetric in  *)
 (* the order of rs (theorem OrderIndependent), which is the order / chunk  *)
@@ -56,23 +76,45 @@ SumV(f, S) == IF S = {} THEN ZeroVec ELSE LET x == CHOOSE y \in S : TRUE IN VecA
 
 ---------------------------------------------------------------------------
 (* the record space of the bounded model *)
+NoW == -1                     \* r.w of a record that has no attribute w
 CatTuples == [1..NCat -> CatVals \cup {Missing}]
+(* complete shapes <<count, mt, mv, mm, w, wt, wm>> of the weighted configurations: a definition, not a    *)
+(* constant (other modules instantiate Uniq); the weighted .cfg files replace it (FullShapes <- ...)       *)
+FullShapes == {}
 Recs ==
-  {[seq |-> s, cat |-> c, count |-> p[1], mt |-> p[2], mv |-> p[3], mm |-> ZeroVec] :
+  {[seq |-> s, cat |-> c, count |-> p[1], mt |-> p[2], mv |-> p[3], mm |-> ZeroVec, w |-> NoW, wt |-> "none", wm |-> ZeroVec] :
           s \in Seqs, c \in CatTuples, p \in PlainShapes}
-  \cup {[seq |-> s, cat |-> c, count |-> VecSum(m), mt |-> "map", mv |-> "", mm |-> m] :
+  \cup {[seq |-> s, cat |-> c, count |-> VecSum(m), mt |-> "map", mv |-> "", mm |-> m, w |-> NoW, wt |-> "none", wm |-> ZeroVec] :
           s \in Seqs, c \in CatTuples, m \in MapShapes}
+  \cup {[seq |-> s, cat |-> c, count |-> p[1], mt |-> p[2], mv |-> p[3], mm |-> p[4], w |-> p[5], wt |-> p[6], wm |-> p[7]] :
+          s \in Seqs, c \in CatTuples, p \in FullShapes}
 RecSeq == SetToSeq(Recs)      \* an arbitrary but fixed enumeration (bags = non decreasing index sequences)
 NRecs == Len(RecSeq)
 
 ---------------------------------------------------------------------------
-(* THE DEFINITION.  opt = [ncat, merge, ns] *)
-MkOpt(t) == [ncat |-> t[1], merge |-> t[2], ns |-> t[3]]
+(* THE DEFINITION.  opt = [ncat, merge, wmerge, ns]: number of requested categories, -m k ?, -m k:w ?,   *)
+(* --no-singleton ?   (an OptSet tuple is <<ncat, merge, ns>> or <<ncat, merge, ns, wmerge>>)             *)
+MkOpt(t) == [ncat |-> t[1], merge |-> t[2], ns |-> t[3], wmerge |-> IF Len(t) >= 4 THEN t[4] ELSE FALSE]
 
 Val(r, i) == IF r.cat[i] = Missing THEN NA ELSE r.cat[i]
 Key(r, nc) == <<r.seq, [i \in 1..nc |-> Val(r, i)]>>
-(* what record r brings to merged_k *)
-Weight(r) == CASE r.mt = "map" -> r.mm
+
+(* the two descriptors on attribute k *)
+Plain    == "k"
+Weighted == "k:w"
+Descs    == {Plain, Weighted}
+Requested(o) == {d \in Descs : IF d = Plain THEN o.merge ELSE o.wmerge}
+(* value of k the record is counted under when it has no map of the descriptor yet *)
+KVal(r) == IF r.mt \in {"val", "both"} THEN r.mv ELSE NA
+(* weight of a not yet merged record: its count (Plain), its attribute w or 0 (Weighted) *)
+RawWeight(r, d) == IF d = Plain THEN r.count ELSE IF r.w = NoW THEN 0 ELSE r.w
+HasMap(r, d) == IF d = Plain THEN r.mt \in {"map", "both"} ELSE r.wt = "map"
+MapOf(r, d)  == IF d = Plain THEN r.mm ELSE r.wm
+(* what record r brings to the map of descriptor d *)
+Contribution(r, d) == IF HasMap(r, d) THEN MapOf(r, d) ELSE Unit(KVal(r), RawWeight(r, d))
+(* what record r brings to merged_k: Contribution(r, Plain), written on the fields every user of this   *)
+(* module gives to its records (RelDemerge instantiates Uniq with records that have no w / wt / wm)     *)
+Weight(r) == CASE r.mt \in {"map", "both"} -> r.mm
                [] r.mt = "val" -> Unit(r.mv, r.count)
                [] OTHER        -> Unit(NA, r.count)
 
@@ -81,77 +123,108 @@ Class(rs, nc, k) == {i \in DOMAIN rs : Key(rs[i], nc) = k}
 RECURSIVE CountTo(_, _)
 CountTo(rs, i) == IF i = 0 THEN 0 ELSE rs[i].count + CountTo(rs, i - 1)
 TotalCount(rs) == CountTo(rs, Len(rs))
+WithNs(full, ns) == IF ns THEN {o \in full : o.count # 1} ELSE full
 
+(* the map of descriptor d of the class I: summed weight per value of k *)
+Stat(rs, I, d) == SumV([i \in I |-> Contribution(rs[i], d)], I)
+
+MergedD(rs, I, k, o) ==
+  [seq |-> k[1], cat |-> k[2],
+   count   |-> Sum([i \in I |-> rs[i].count], I),
+   merged  |-> IF o.merge  THEN Stat(rs, I, Plain)    ELSE ZeroVec,
+   wmerged |-> IF o.wmerge THEN Stat(rs, I, Weighted) ELSE ZeroVec]
+
+UniqAllD(rs, o) == {MergedD(rs, Class(rs, o.ncat, k), k, o) : k \in Keys(rs, o.ncat)}
+UniqD(rs, o) == WithNs(UniqAllD(rs, o), o.ns)
+
+(* The plain projection, as first written (options [ncat, merge, ns], output records without wmerged):   *)
+(* kept for the modules that instantiate Uniq; theorem PlainProjection: it is UniqD without `wmerged`.   *)
 Merged(rs, I, k, merge) ==
   [seq |-> k[1], cat |-> k[2],
    count  |-> Sum([i \in I |-> rs[i].count], I),
    merged |-> IF merge THEN SumV([i \in I |-> Weight(rs[i])], I) ELSE ZeroVec]
 
 UniqAll(rs, nc, merge) == {Merged(rs, Class(rs, nc, k), k, merge) : k \in Keys(rs, nc)}
-Uniq(rs, opt) == LET all == UniqAll(rs, opt.ncat, opt.merge)
-                 IN  IF opt.ns THEN {o \in all : o.count # 1} ELSE all
+Uniq(rs, o) == LET all == UniqAll(rs, o.ncat, o.merge)
+               IN  IF o.ns THEN {x \in all : x.count # 1} ELSE all
 
 (* The same set computed in one pass over the records (an accumulator per key): the form used to   *)
 (* validate traces of 10^3 records; theorem FoldAgrees states that it is the definition above.      *)
 RECURSIVE Accumulate(_, _, _, _, _)
-Accumulate(rs, i, n, nc, acc) ==          \* acc[sequence][category values] = [count, vec]
+Accumulate(rs, i, n, o, acc) ==          \* acc[sequence][category values] = [count, vec, wvec]
   IF i > n THEN acc
   ELSE LET r     == rs[i]
            s     == r.seq
-           c     == [j \in 1..nc |-> Val(r, j)]
+           c     == [j \in 1..o.ncat |-> Val(r, j)]
            inner == IF s \in DOMAIN acc THEN acc[s] ELSE <<>>
-           old   == IF c \in DOMAIN inner THEN inner[c] ELSE [count |-> 0, vec |-> ZeroVec]
-           new   == [count |-> old.count + r.count, vec |-> VecAdd(old.vec, Weight(r))]
+           old   == IF c \in DOMAIN inner THEN inner[c] ELSE [count |-> 0, vec |-> ZeroVec, wvec |-> ZeroVec]
+           new   == [count |-> old.count + r.count,
+                     vec   |-> IF o.merge  THEN VecAdd(old.vec,  Contribution(r, Plain))    ELSE ZeroVec,
+                     wvec  |-> IF o.wmerge THEN VecAdd(old.wvec, Contribution(r, Weighted)) ELSE ZeroVec]
            upd   == IF c \in DOMAIN inner THEN [inner EXCEPT ![c] = new] ELSE (c :> new) @@ inner
-       IN  Accumulate(rs, i + 1, n, nc, IF s \in DOMAIN acc THEN [acc EXCEPT ![s] = upd] ELSE (s :> upd) @@ acc)
-UniqFold(rs, opt) ==
-  LET acc == Accumulate(rs, 1, Len(rs), opt.ncat, <<>>)
+       IN  Accumulate(rs, i + 1, n, o, IF s \in DOMAIN acc THEN [acc EXCEPT ![s] = upd] ELSE (s :> upd) @@ acc)
+UniqFold(rs, o) ==
+  LET acc == Accumulate(rs, 1, Len(rs), o, <<>>)
       all == UNION {{[seq |-> s, cat |-> c, count |-> acc[s][c].count,
-                      merged |-> IF opt.merge THEN acc[s][c].vec ELSE ZeroVec] : c \in DOMAIN acc[s]} : s \in DOMAIN acc}
-  IN  IF opt.ns THEN {o \in all : o.count # 1} ELSE all
+                      merged |-> acc[s][c].vec, wmerged |-> acc[s][c].wvec] : c \in DOMAIN acc[s]} : s \in DOMAIN acc}
+  IN  WithNs(all, o.ns)
 
 (* obidemerge -d k on a set of merged records: one record per value of the map, with that weight as count *)
 DemergeOne(o) == {[seq |-> o.seq, cat |-> o.cat, count |-> o.merged[j], mt |-> "val", mv |-> MrgKeySeq[j], mm |-> ZeroVec] :
                      j \in {j \in 1..K : o.merged[j] > 0}}
 Demerge(O) == UNION {DemergeOne(o) : o \in O}
-(* an output record fed again to obiuniq: it is an already merged record *)
-AsInput(o) == [seq |-> o.seq, cat |-> o.cat, count |-> o.count, mt |-> "map", mv |-> "", mm |-> o.merged]
+(* a demerged record as an input record of a pass of obiuniq -m k *)
+DemAsInput(d) == [seq |-> d.seq, cat |-> d.cat, count |-> d.count, mt |-> d.mt, mv |-> d.mv, mm |-> d.mm,
+                  w |-> NoW, wt |-> "none", wm |-> ZeroVec]
+(* an output record of a pass made with options o, fed again to obiuniq: it is an already merged record *)
+(* for every descriptor that pass was asked for                                                        *)
+AsInput(x, o) == [seq |-> x.seq, cat |-> x.cat, count |-> x.count,
+                  mt |-> IF o.merge THEN "map" ELSE "none", mv |-> "", mm |-> x.merged,
+                  w |-> NoW, wt |-> IF o.wmerge THEN "map" ELSE "none", wm |-> x.wmerged]
 
 ---------------------------------------------------------------------------
 (* IMPLEMENTATION-SHAPED MODEL of IUniqueSequence (value part): records are distributed on B chunks by *)
 (* a hash of the sequence, each chunk is split in classes of identical sequence, every class of more  *)
 (* than one record is split again on the last requested category, and so on; a class is folded into  *)
-(* its first record with BioSequence.Merge, whose merged_k slot is created lazily.                   *)
+(* its first record with BioSequence.Merge, whose slot merged_<descriptor> is created lazily, one     *)
+(* slot per requested descriptor.                                                                    *)
 SeqsSeq == SetToSeq(Seqs)
 Hash(s) == CHOOSE i \in 1..Len(SeqsSeq) : SeqsSeq[i] = s
 
 Groups(rs, F(_)) == {SelectSeq(rs, LAMBDA r : F(r) = v) : v \in {F(rs[i]) : i \in DOMAIN rs}}
 
-(* acc = [count, has, vec]; `has` = the merged_k slot exists *)
-InitStats(first, acc) == IF acc.has THEN acc
-                         ELSE [acc EXCEPT !.has = TRUE,
-                                          !.vec = IF first.mt = "val" THEN Unit(first.mv, acc.count) ELSE Unit(NA, acc.count)]
-Start(first) == [count |-> first.count, has |-> first.mt = "map", vec |-> first.mm]
-Step(first, acc, r, merge) ==
-  LET a == IF merge THEN InitStats(first, acc) ELSE acc
+(* acc = [count, has, vec]; has[d] = the slot of descriptor d exists, vec[d] its content.  A new slot    *)
+(* starts with what the absorbing record itself weighs at that moment: its running count (Plain), its   *)
+(* own attribute w (Weighted), under its own value of k.                                                *)
+InitStats(first, acc, d) ==
+  IF acc.has[d] THEN acc
+  ELSE [acc EXCEPT !.has[d] = TRUE,
+                   !.vec[d] = Unit(KVal(first), IF d = Plain THEN acc.count ELSE RawWeight(first, Weighted))]
+RECURSIVE InitAll(_, _, _)
+InitAll(first, acc, D) == IF D = {} THEN acc
+                          ELSE LET d == CHOOSE x \in D : TRUE IN InitAll(first, InitStats(first, acc, d), D \ {d})
+Start(first) == [count |-> first.count, has |-> [d \in Descs |-> HasMap(first, d)], vec |-> [d \in Descs |-> MapOf(first, d)]]
+Step(first, acc, r, o) ==
+  LET a == InitAll(first, acc, Requested(o))
   IN  [count |-> a.count + r.count, has |-> a.has,
-       vec |-> IF merge THEN VecAdd(a.vec, Weight(r)) ELSE a.vec]
+       vec |-> [d \in Descs |-> IF d \in Requested(o) THEN VecAdd(a.vec[d], Contribution(r, d)) ELSE a.vec[d]]]
 RECURSIVE Fold(_, _, _, _)
-Fold(cls, i, acc, merge) == IF i > Len(cls) THEN acc ELSE Fold(cls, i + 1, Step(cls[1], acc, cls[i], merge), merge)
-FoldMerge(cls, opt) ==
-  LET a0 == Fold(cls, 2, Start(cls[1]), opt.merge)
-      a  == IF opt.merge THEN InitStats(cls[1], a0) ELSE a0      \* len 1: seq.StatsOn(desc, na)
-  IN  [seq |-> cls[1].seq, cat |-> [i \in 1..opt.ncat |-> Val(cls[1], i)], count |-> a.count,
-       merged |-> IF opt.merge THEN a.vec ELSE ZeroVec]
+Fold(cls, i, acc, o) == IF i > Len(cls) THEN acc ELSE Fold(cls, i + 1, Step(cls[1], acc, cls[i], o), o)
+FoldMerge(cls, o) ==
+  LET a0 == Fold(cls, 2, Start(cls[1]), o)
+      a  == InitAll(cls[1], a0, Requested(o))                    \* len 1: seq.StatsOn(desc, na) for every descriptor
+  IN  [seq |-> cls[1].seq, cat |-> [i \in 1..o.ncat |-> Val(cls[1], i)], count |-> a.count,
+       merged  |-> IF o.merge  THEN a.vec[Plain]    ELSE ZeroVec,
+       wmerged |-> IF o.wmerge THEN a.vec[Weighted] ELSE ZeroVec]
 
 RECURSIVE Refine(_, _, _)
-Refine(cls, icat, opt) ==
+Refine(cls, icat, o) ==
   IF icat = 0 \/ Len(cls) = 1
-    THEN IF opt.ns /\ Len(cls) = 1 /\ cls[1].count = 1 THEN {} ELSE {FoldMerge(cls, opt)}
-    ELSE UNION {Refine(g, icat - 1, opt) : g \in Groups(cls, LAMBDA r : Val(r, icat))}
+    THEN IF o.ns /\ Len(cls) = 1 /\ cls[1].count = 1 THEN {} ELSE {FoldMerge(cls, o)}
+    ELSE UNION {Refine(g, icat - 1, o) : g \in Groups(cls, LAMBDA r : Val(r, icat))}
 
-ImplUniq(rs, opt, B) ==
-  UNION {UNION {Refine(g, opt.ncat, opt) : g \in Groups(chunk, LAMBDA r : r.seq)} :
+ImplUniq(rs, o, B) ==
+  UNION {UNION {Refine(g, o.ncat, o) : g \in Groups(chunk, LAMBDA r : r.seq)} :
             chunk \in {SelectSeq(rs, LAMBDA r : Hash(r.seq) % B = h) : h \in 0..(B - 1)}}
 
 ---------------------------------------------------------------------------
@@ -166,7 +239,7 @@ Next == /\ Len(idx) < MaxN
         /\ UNCHANGED opt
 
 OutCount(O) == Sum([o \in O |-> o.count], O)
-WithNs(full, ns) == IF ns THEN {o \in full : o.count # 1} ELSE full
+ClassOf(r, o) == Class(r, opt.ncat, <<o.seq, o.cat>>)
 
 (* ---- theorems of the specification, checked on every (option set, bag).  They are written over ---- *)
 (* ---- r (the bag), full (its dereplication with singletons) and out (what the options ask for)  ---- *)
@@ -182,58 +255,100 @@ SingletonExactT(r, full, out) ==
       /\ OutCount(kept) = TotalCount(r) - Cardinality(single)
 (* records of the model are consistent (count = total of their map), so are the outputs *)
 MapTotalIsCountT(r, full, out) == opt.merge => \A o \in out : VecSum(o.merged) = o.count
+(* the total of a weighted map is the sum of w over the class (of the totals of the maps of the records *)
+(* that are already merged): no weight is lost, none is invented, whatever the values of k             *)
+WTotal(x) == IF x.wt = "map" THEN VecSum(x.wm) ELSE RawWeight(x, Weighted)
+WMapTotalT(r, full, out) ==
+  opt.wmerge => \A o \in full : LET I == ClassOf(r, o) IN VecSum(o.wmerged) = Sum([i \in I |-> WTotal(r[i])], I)
+(* per value: a class of not yet merged records gives, under v, the sum of w (of the counts) of its    *)
+(* records whose k is v                                                                                 *)
+PerValueT(r, full, out) ==
+  \A o \in full : LET I == ClassOf(r, o) IN
+    \A d \in Requested(opt) :
+       (\A i \in I : ~HasMap(r[i], d)) =>
+          \A j \in 1..K : LET J == {i \in I : KVal(r[i]) = MrgKeySeq[j]}
+                          IN  (IF d = Plain THEN o.merged ELSE o.wmerged)[j] = Sum([i \in J |-> RawWeight(r[i], d)], J)
+(* additivity: over any split of a class in two parts the map is the sum of the maps of the parts *)
+AdditiveT(r, full, out) ==
+  \A o \in full : LET I == ClassOf(r, o) IN
+    \A d \in Descs : \A S \in SUBSET I : Stat(r, I, d) = VecAdd(Stat(r, S, d), Stat(r, I \ S, d))
+(* the descriptors are independent: asking for one more map changes nothing else *)
+Mask(o, o2) == [o EXCEPT !.merged = IF o2.merge THEN @ ELSE ZeroVec, !.wmerged = IF o2.wmerge THEN @ ELSE ZeroVec]
+IndependentT(r, full, out) ==
+  \A m \in {opt.merge, FALSE} : \A wm \in {opt.wmerge, FALSE} :
+     LET o2 == [opt EXCEPT !.merge = m, !.wmerge = wm] IN {Mask(o, o2) : o \in out} = UniqD(r, o2)
+(* -m k:w with w = count is -m k (records that are not merged yet) *)
+WeightedIsPlainT(r, full, out) ==
+  (\A i \in DOMAIN r : ~HasMap(r[i], Plain) /\ ~HasMap(r[i], Weighted) /\ r[i].w = r[i].count) =>
+     \A o \in UniqAllD(r, [opt EXCEPT !.merge = TRUE, !.wmerge = TRUE]) : o.wmerged = o.merged
+(* the plain part is the definition as first written *)
+PlainProjectionT(r, full, out) ==
+  {[seq |-> o.seq, cat |-> o.cat, count |-> o.count, merged |-> o.merged] : o \in out}
+     = Uniq(r, [ncat |-> opt.ncat, merge |-> opt.merge, ns |-> opt.ns])
 (* obiuniq -m k | obidemerge -d k | obiuniq -m k  =  obiuniq -m k ; demerge keeps the counts and yields *)
 (* exactly one record per value present in the map                                                   *)
 DemergeInverseT(r, full, out) ==
   opt.merge =>
-    LET d == SetToSeq(Demerge(out))
-    IN  /\ Uniq(d, [opt EXCEPT !.ns = FALSE]) = out
+    LET d  == SetToSeq({DemAsInput(x) : x \in Demerge(out)})
+        o1 == [opt EXCEPT !.wmerge = FALSE]
+    IN  /\ UniqD(d, [o1 EXCEPT !.ns = FALSE]) = {Mask(o, o1) : o \in out}
         /\ TotalCount(d) = OutCount(out)
         /\ \A o \in out : \A j \in 1..K :
               Cardinality({i \in DOMAIN d : d[i].seq = o.seq /\ d[i].cat = o.cat /\ d[i].mv = MrgKeySeq[j]})
                  = IF o.merged[j] > 0 THEN 1 ELSE 0
-(* dereplication can be done by parts (chunks, sub-chunks, a second pass): partial results merge to the same set *)
+(* dereplication can be done by parts (chunks, sub-chunks, a second pass over dereplicated files): the partial *)
+(* results, made with singletons, merge to the same set, for every requested descriptor                    *)
 HomomorphismT(r, full, out) ==
-  (opt.merge /\ ~opt.ns) =>
+  (opt.merge \/ opt.wmerge) =>
+    LET o0 == [opt EXCEPT !.ns = FALSE] IN
     \A c \in 0..Len(r) :
-       LET a == SetToSeq({AsInput(o) : o \in Uniq(SubSeq(r, 1, c), opt)})
-           b == SetToSeq({AsInput(o) : o \in Uniq(SubSeq(r, c + 1, Len(r)), opt)})
-       IN  Uniq(a \o b, opt) = out
+       LET a == SetToSeq({AsInput(o, o0) : o \in UniqD(SubSeq(r, 1, c), o0)})
+           b == SetToSeq({AsInput(o, o0) : o \in UniqD(SubSeq(r, c + 1, Len(r)), o0)})
+       IN  UniqD(a \o b, opt) = out
 (* the definition does not depend on the order in which the bag is written, and the implementation-shaped *)
 (* pipeline computes it for every arrival order and chunk count                                           *)
 Permuted(r, p) == [i \in DOMAIN r |-> r[p[i]]]
-OrderIndependentT(r, full, out) == \A p \in Permutations(DOMAIN r) : Uniq(Permuted(r, p), opt) = out
+OrderIndependentT(r, full, out) == \A p \in Permutations(DOMAIN r) : UniqD(Permuted(r, p), opt) = out
 ImplAgreesT(r, full, out) ==
   \A p \in Permutations(DOMAIN r) : \A B \in ChunkCounts : ImplUniq(Permuted(r, p), opt, B) = out
 
-Accounting == LET r == rs  full == UniqAll(r, opt.ncat, opt.merge)  out == WithNs(full, opt.ns)
+Accounting == LET r == rs  full == UniqAllD(r, opt)  out == WithNs(full, opt.ns)
               IN  /\ OnePerKeyT(r, full, out) /\ ConservationT(r, full, out)
                   /\ SingletonExactT(r, full, out) /\ MapTotalIsCountT(r, full, out)
+                  /\ WMapTotalT(r, full, out) /\ PerValueT(r, full, out) /\ PlainProjectionT(r, full, out)
                   /\ UniqFold(r, opt) = out          \* FoldAgrees
 Laws ==       Len(idx) <= LawsMaxN =>
-              LET r == rs  full == UniqAll(r, opt.ncat, opt.merge)  out == WithNs(full, opt.ns)
+              LET r == rs  full == UniqAllD(r, opt)  out == WithNs(full, opt.ns)
               IN  /\ DemergeInverseT(r, full, out) /\ HomomorphismT(r, full, out)
                   /\ OrderIndependentT(r, full, out) /\ ImplAgreesT(r, full, out)
+                  /\ AdditiveT(r, full, out) /\ IndependentT(r, full, out) /\ WeightedIsPlainT(r, full, out)
 (* the same, one by one (to locate a broken theorem) *)
-OnePerKey        == LET r == rs full == UniqAll(r, opt.ncat, opt.merge) IN OnePerKeyT(r, full, WithNs(full, opt.ns))
-Conservation     == LET r == rs full == UniqAll(r, opt.ncat, opt.merge) IN ConservationT(r, full, WithNs(full, opt.ns))
-SingletonExact   == LET r == rs full == UniqAll(r, opt.ncat, opt.merge) IN SingletonExactT(r, full, WithNs(full, opt.ns))
-MapTotalIsCount  == LET r == rs full == UniqAll(r, opt.ncat, opt.merge) IN MapTotalIsCountT(r, full, WithNs(full, opt.ns))
-DemergeInverse   == LET r == rs full == UniqAll(r, opt.ncat, opt.merge) IN DemergeInverseT(r, full, WithNs(full, opt.ns))
-Homomorphism     == LET r == rs full == UniqAll(r, opt.ncat, opt.merge) IN HomomorphismT(r, full, WithNs(full, opt.ns))
-OrderIndependent == LET r == rs full == UniqAll(r, opt.ncat, opt.merge) IN OrderIndependentT(r, full, WithNs(full, opt.ns))
-FoldAgrees       == UniqFold(rs, opt) = Uniq(rs, opt)
-ImplAgrees       == LET r == rs full == UniqAll(r, opt.ncat, opt.merge) IN ImplAgreesT(r, full, WithNs(full, opt.ns))
+OnePerKey        == LET r == rs full == UniqAllD(r, opt) IN OnePerKeyT(r, full, WithNs(full, opt.ns))
+Conservation     == LET r == rs full == UniqAllD(r, opt) IN ConservationT(r, full, WithNs(full, opt.ns))
+SingletonExact   == LET r == rs full == UniqAllD(r, opt) IN SingletonExactT(r, full, WithNs(full, opt.ns))
+MapTotalIsCount  == LET r == rs full == UniqAllD(r, opt) IN MapTotalIsCountT(r, full, WithNs(full, opt.ns))
+WMapTotal        == LET r == rs full == UniqAllD(r, opt) IN WMapTotalT(r, full, WithNs(full, opt.ns))
+PerValue         == LET r == rs full == UniqAllD(r, opt) IN PerValueT(r, full, WithNs(full, opt.ns))
+Additive         == LET r == rs full == UniqAllD(r, opt) IN AdditiveT(r, full, WithNs(full, opt.ns))
+Independent      == LET r == rs full == UniqAllD(r, opt) IN IndependentT(r, full, WithNs(full, opt.ns))
+WeightedIsPlain  == LET r == rs full == UniqAllD(r, opt) IN WeightedIsPlainT(r, full, WithNs(full, opt.ns))
+PlainProjection  == LET r == rs full == UniqAllD(r, opt) IN PlainProjectionT(r, full, WithNs(full, opt.ns))
+DemergeInverse   == LET r == rs full == UniqAllD(r, opt) IN DemergeInverseT(r, full, WithNs(full, opt.ns))
+Homomorphism     == LET r == rs full == UniqAllD(r, opt) IN HomomorphismT(r, full, WithNs(full, opt.ns))
+OrderIndependent == LET r == rs full == UniqAllD(r, opt) IN OrderIndependentT(r, full, WithNs(full, opt.ns))
+FoldAgrees       == UniqFold(rs, opt) = UniqD(rs, opt)
+ImplAgrees       == LET r == rs full == UniqAllD(r, opt) IN ImplAgreesT(r, full, WithNs(full, opt.ns))
 
 ---------------------------------------------------------------------------
 (* case export: one line per (option set, bag) *)
-EncRec(r) == <<r.seq, r.cat, r.count, r.mt, r.mv, r.mm>>
-EncOut(o) == <<o.seq, o.cat, o.count, o.merged>>
+EncRec(r) == <<r.seq, r.cat, r.count, r.mt, r.mv, r.mm, r.w, r.wt, r.wm>>
+EncOut(o) == <<o.seq, o.cat, o.count, o.merged, o.wmerged>>
 EncDem(d) == <<d.seq, d.cat, d.count, d.mv>>
+B2I(b) == IF b THEN 1 ELSE 0
 Export ==
-  LET r == rs  out == Uniq(r, opt) IN
+  LET r == rs  out == UniqD(r, opt) IN
   CSVWrite("%1$s", <<ToJson([in  |-> [i \in DOMAIN r |-> EncRec(r[i])],
-                            opt |-> <<opt.ncat, IF opt.merge THEN 1 ELSE 0, IF opt.ns THEN 1 ELSE 0>>,
+                            opt |-> <<opt.ncat, B2I(opt.merge), B2I(opt.ns), B2I(opt.wmerge)>>,
                             keys |-> MrgKeySeq,
                             out |-> SetToSeq({EncOut(o) : o \in out}),
                             dem |-> IF opt.merge THEN SetToSeq({EncDem(d) : d \in Demerge(out)}) ELSE <<>>])>>,
